@@ -226,6 +226,16 @@ func (fc *FnCtx) call(ins ssa.Instruction, cc *ssa.CallCommon) {
 		setRes(m.fn(fc, cc, args, pos, resVal))
 		return
 	}
+	if fc.eng.isRepoFunc(callee) && fc.eng.simpleScalarFn(callee, 0) {
+		// a small helper without contract that only computes on scalars (no loops, no memory, no
+		// calls other than to helpers of the same kind): its result is its body, exactly as for a
+		// spec function. (Extracting such a helper from verified code does not change any proof.)
+		if def := fc.eng.specFnDef(callee, fc.mode); def.Err == "" {
+			fc.calledRepo[callee] = true
+			setRes(fc.specFnCallSSA(callee, args))
+			return
+		}
+	}
 	if fc.eng.isRepoFunc(callee) && fc.eng.heapPure(callee) {
 		// helper without contract whose body provably writes only objects it allocates itself
 		fc.calledRepo[callee] = true
@@ -1490,14 +1500,38 @@ func (fc *FnCtx) callAsserts(ins ssa.Instruction, cc *ssa.CallCommon, args []Val
 				env.binds[fmt.Sprintf("arg%d", k)] = binding{a, cc.Args[k].Type()}
 			}
 		}
+		// prevK: the K-th argument of the preceding call (in program order on this path prefix) of
+		// a function of the same name -- lets a clause say "the same arguments as the call before"
+		// without naming the caller's local variables
+		if pa, ok := fc.prevArgs[name]; ok {
+			for k, a := range pa.vals {
+				env.binds[fmt.Sprintf("prev%d", k)] = binding{a, pa.typs[k]}
+			}
+		}
+		ca.Hits++ // the call site exists, whether or not the clause can be evaluated
 		t, err := fc.specBool(env, ca.Clause.Text)
 		if err != nil {
 			fc.unbound = append(fc.unbound, fmt.Sprintf("assert-call %s %q: %v", ca.Callee, ca.Clause.Text, err))
 			continue
 		}
-		ca.Hits++
 		fc.oblige("assert-call", ca.Callee+": "+ca.Clause.Text, pos, t)
 	}
+	if fc.prevArgs == nil {
+		fc.prevArgs = map[string]prevCall{}
+	}
+	pc := prevCall{}
+	for k, a := range args {
+		if k < len(cc.Args) {
+			pc.vals = append(pc.vals, a)
+			pc.typs = append(pc.typs, cc.Args[k].Type())
+		}
+	}
+	fc.prevArgs[name] = pc
+}
+
+type prevCall struct {
+	vals []Value
+	typs []types.Type
 }
 
 // ifaceMethodUF models a pure interface method as an uninterpreted function.
@@ -1559,4 +1593,51 @@ func containsIdent(text, name string) bool {
 		}
 		i = b
 	}
+}
+
+// simpleScalarFn: a function with scalar parameters and one scalar result, a loop-free body without
+// memory access, panics, goroutines, defers or closures, that calls only functions of the same kind.
+func (e *Engine) simpleScalarFn(fn *ssa.Function, depth int) bool {
+	if depth > 3 || len(fn.Blocks) == 0 || len(fn.FreeVars) > 0 || fn.Signature.Results().Len() != 1 || fn.Signature.Recv() != nil {
+		return false
+	}
+	scalar := func(t types.Type) bool {
+		switch u := t.Underlying().(type) {
+		case *types.Basic:
+			return u.Info()&(types.IsInteger|types.IsBoolean|types.IsString) != 0
+		}
+		return false
+	}
+	if !scalar(fn.Signature.Results().At(0).Type()) {
+		return false
+	}
+	for _, p := range fn.Params {
+		if !scalar(p.Type()) {
+			return false
+		}
+	}
+	for _, b := range fn.Blocks {
+		for _, s := range b.Succs {
+			if s.Index <= b.Index {
+				return false // back edge: a loop
+			}
+		}
+		for _, ins := range b.Instrs {
+			switch x := ins.(type) {
+			case *ssa.BinOp, *ssa.Phi, *ssa.If, *ssa.Jump, *ssa.Return, *ssa.DebugRef, *ssa.Convert, *ssa.ChangeType:
+			case *ssa.UnOp:
+				if x.Op == token.MUL || x.Op == token.ARROW {
+					return false
+				}
+			case *ssa.Call:
+				callee, ok := x.Common().Value.(*ssa.Function)
+				if !ok || !e.isRepoFunc(callee) || !e.simpleScalarFn(callee, depth+1) {
+					return false
+				}
+			default:
+				return false
+			}
+		}
+	}
+	return true
 }
